@@ -107,14 +107,15 @@ def hats : Option LenExpr → Int
   | some L => (L.parts.filter (fun p => p.1 == 94)).length
 
 mutual
-/-- the counted elements of a tuplet body: notes, rests, nested tuplets and each `^`/`+` part of
-    their lengths; a loop counts as its repetitions -/
+/-- the counted elements of a tuplet body: notes, rests, nested tuplets and each `^` part of
+    their lengths; a loop counts as its repetitions; the members of a chord count one by one (the lexer counts tokens) -/
 def countElem : Cmd → Int
   | .note _ _ _ len _ _ _ _ => 1 + hats len
   | .noteN _ len _ _ _ => 1 + hats len
   | .rest len _ => 1 + hats len
   | .div _ len => 1 + hats len
   | .loop n a _ b => if n = 0 then 0 else (n : Int) * countElems a + ((n : Int) - 1) * countElems b
+  | .chord b _ _ _ => countElems b
   | _ => 0
 def countElems : List Cmd → Int
   | [] => 0
